@@ -367,6 +367,38 @@ impl GlobalInferenceCtx<'_> {
         let mut really_replaced = true;
 
         if !found_ty.is_weak_replaceable_by(&new_ty) {
+            // an integer literal that goes into an error union keeps its weak type (it is
+            // converted when it is stored), but it still has to fit the side it is stored as
+            if let (
+                Expr::IntLiteral(num),
+                Ty::ErrorUnion {
+                    error_ty,
+                    payload_ty,
+                },
+            ) = (expr_body, new_ty.absolute_ty())
+            {
+                let side = if found_ty.can_fit_into(payload_ty) {
+                    *payload_ty
+                } else {
+                    *error_ty
+                };
+                if let Some(max_size) = side.get_max_int_size()
+                    && *num > max_size
+                {
+                    self.diagnostics.push(TyDiagnostic {
+                        kind: TyDiagnosticKind::IntTooBigForType {
+                            found: *num,
+                            max: max_size,
+                            ty: side,
+                        },
+                        file: self.loc.file(),
+                        expr: Some(expr),
+                        range: self.bodies.range_for_expr(expr),
+                        help: None,
+                    });
+                }
+            }
+
             return false;
         }
 
